@@ -256,13 +256,8 @@ theorem encoding_in_namespace (u : Option String) (e : Encoding) (x : XmlNode) (
           trivial⟩
   | str se =>
     simp only [writeEncoding, bind, Except.bind, pure, Except.pure] at h
-    have htail : ∀ (hexf : UInt8 → List Char), AllInNsList u ((if optTruthy se.leadingSize = true then
-          [mkEl u "LeadingSize" [("sizeInBitsOfSizeTag", toString (se.leadingSize.getD 0))] []] else []) ++
-        match se.termChar with
-        | some t => if List.isEmpty t = true then []
-                    else [mkEl u "TerminationChar" [] [] (some (String.ofList (List.flatMap hexf t)))]
-        | none => []) := by
-      intro hexf
+    have htail : AllInNsList u (tailKids u se.leadingSize se.termChar) := by
+      unfold tailKids
       rw [allInNsList_append]
       constructor
       · split
@@ -275,31 +270,31 @@ theorem encoding_in_namespace (u : Option String) (e : Encoding) (x : XmlNode) (
           split
           · trivial
           · exact ⟨leaf_in_namespace u _ _ _, trivial⟩
-    have hpir : AllInNsList u ([writeParamInstanceRef u (se.dynRef.getD "") se.useCal] ++
-        match se.adjuster with | some a => [writeLinAdj u a] | none => []) := by
+    have hpir : AllInNsList u ([writeParamInstanceRef u (se.dynRef.getD "") se.useCal] ++ adjKids u se.adjuster) := by
       refine ⟨pir_in_namespace u _ _, ?_⟩
+      unfold adjKids
       cases se.adjuster with
       | none => trivial
       | some a => exact ⟨linadj_in_namespace u a, trivial⟩
-    simp only [mkEl] at h htail hpir
+    simp only [mkEl] at h hpir
     split at h
     · injection h with h; subst h
       simp only [AllInNs, AllInNsList, and_true, true_and]
-      rw [List.append_assoc, allInNsList_append]
-      exact ⟨by simp [AllInNs, AllInNsList], htail _⟩
+      rw [allInNsList_append]
+      exact ⟨by simp [AllInNs, AllInNsList], htail⟩
     · split at h
       · injection h with h; subst h
         simp only [AllInNs, AllInNsList, and_true, true_and]
-        rw [List.append_assoc, allInNsList_append]
-        exact ⟨⟨⟨rfl, hpir⟩, trivial⟩, htail _⟩
+        rw [allInNsList_append]
+        exact ⟨⟨⟨rfl, hpir⟩, trivial⟩, htail⟩
       · split at h
         · cases hm : (se.lookup.getD []).mapM (writeDiscreteLookup u) with
           | error e => simp [hm] at h
           | ok ys =>
             simp only [hm] at h; injection h with h; subst h
             simp only [AllInNs, AllInNsList, and_true, true_and]
-            rw [List.append_assoc, allInNsList_append]
-            exact ⟨⟨⟨rfl, lookups_in_namespace u _ ys hm⟩, trivial⟩, htail _⟩
+            rw [allInNsList_append]
+            exact ⟨⟨⟨rfl, lookups_in_namespace u _ ys hm⟩, trivial⟩, htail⟩
         · cases h
 
 theorem ptype_in_namespace (u : Option String) (t : LPType) (x : XmlNode) (h : writeParameterType u t = .ok x) :
